@@ -50,6 +50,8 @@ pub fn c17_chen() {
     let (w2, r2, s2) = any_card();
     sym::assume(w1 != w2);
     let h = Two::new(w1, w2);
+    // priming call on an unrelated arbitrary input: a memo / cache in front of a pure function would show here
+    let _ = Two::new(w2, word((r1 + 5) % 13, (s2 + 1) % 4)).chen_formula();
     let hi = if r1 > r2 { r1 } else { r2 };
     let lo = if r1 > r2 { r2 } else { r1 };
     let gap = if hi == lo { 0 } else { hi - lo - 1 };
